@@ -135,6 +135,22 @@ PROPS["C05"] = dict(
                  "the model demands the statement literally: Close/Unregist of the current holder makes lookups return nothing"],
 )
 
+PROPS["C12"] = dict(
+    bin="race", level="exploration", shards={"quick": 16, "thorough": 16},
+    timeout={"quick": 1200, "thorough": 3400},
+    rule=("request sequences over a 27-symbol alphabet {OPTIONS, DESCRIBE ok|missing, ANNOUNCE ok|bad sdp|no content-type, SETUP video|audio x "
+          "tcp|udp|multicast x play|record, SETUP bad transport|unknown control, PLAY, RECORD, PAUSE, GET_PARAMETER, TEARDOWN, FOO}: exhaustive "
+          "to length 2 (quick) / 3 (thorough) on the full alphabet, exhaustive to length 4 / 5 on a 9-symbol alphabet with one representative per "
+          "automaton edge, plus seeded random sequences of length 3-12; one fresh real connection per sequence (TCP; every 7th over ws-rtsp) to "
+          "the in-process server while a real RECORD publisher feeds the source stream. Distinct by (transport, sequence)"),
+    level_text=("Reference-automaton monitor over real sockets: per request exactly one response (decided by CSeq order against an OPTIONS probe, "
+                "never by timeout), CSeq echo, constant Session id, status class and successor state per the automaton, no media before 200 PLAY, "
+                "no registration before 200 RECORD, counters/registry/consumers back to baseline after disconnect"),
+    level_note="WSP's WRAP alphabet is not driven here; where the statement is silent (repeated PLAY/RECORD) any single response is accepted",
+    technique="runtime monitoring: online trace checker against a reference automaton, exhaustive bounded request sequences on the real server",
+    assumptions=["on TCP an unknown first method is closed by the port multiplexer (C19), so such sequences get an OPTIONS preamble"],
+)
+
 # checks whose texts are kept as JSON (props_json/<ID>.json)
 import json as _json, os as _os, glob as _glob
 for _f in sorted(_glob.glob(_os.path.join(_os.path.dirname(_os.path.abspath(__file__)), "props_json", "C*.json"))):
